@@ -42,7 +42,7 @@ def get_backends():
 @st.composite
 def matrix_cases(draw, tier):
     n = draw(st.integers(1, 8))
-    kind = draw(st.sampled_from(['dominant', 'dominant', 'spd', 'general', 'ill', 'singular', 'singular-zero-row', 'complex']))
+    kind = draw(st.sampled_from(['dominant', 'dominant', 'spd', 'general', 'ill', 'singular', 'singular-zero-row', 'complex', 'overflow']))
     entries = [[draw(st.sampled_from(V)) for _ in range(n)] for _ in range(n)]
     sparsity = draw(st.sampled_from([1.0, 0.6, 0.3]))
     mask = [[draw(st.integers(0, 99)) < 100 * sparsity for _ in range(n)] for _ in range(n)]
@@ -81,6 +81,10 @@ def make_matrix(case):
     elif kind == 'singular-zero-row':
         A = A + numpy.eye(n)
         A[0] = 0
+    elif kind == 'overflow':
+        # finite, regular system whose solution is not representable: one equation scaled into the subnormal range
+        A = A + numpy.diag(abs(A).sum(1) + 1)
+        A[n - 1] = A[n - 1] * 1e-310
     elif kind == 'complex':
         A = (A + numpy.diag(abs(A).sum(1) + 1)).astype(complex) + 1j * numpy.array(case['entries'], dtype=float).T * .5
     return A
